@@ -345,9 +345,7 @@ def run(ctx):
                     "alone_outcome": rr[t], "thread_outcome": oo["outcomes"][t],
                     "clause": "thread outcome == alone outcome",
                 }, f"{len(mrun['specs'])} thread(s), {len(rp['switches'])} switch(es): " + describe(rr[t], oo["outcomes"][t]))
-    if skipped_over_budget > max(3, n_runs // 50):
-        from ..pool import HarnessError
-        raise HarnessError(f"{skipped_over_budget} runs exceeded the line-step budget")
+    # (runs over the line-step budget are still judged - see judged() - so their number is only reported)
     warn = [k for k in ("switch_while_2_in_generate_code", "switch_in_context_manager",
                         "thread_started_after_other_finished", "switch_in_models_meta",
                         "switch_while_2_nonempty_mappings") if not probes.get(k)]
